@@ -231,7 +231,7 @@ fn texts() -> Vec<Vec<u8>> {
     for bs in ["3", "6144", "3221225472", "0", "03", "4", "4294967296", "", "6 "] {
         for l1 in [0usize, 1, 5, 60, 63, 64, 65, 70] {
             for r1 in [0usize, 3, 4, 5, 9, 60, 70] {
-                for (l2, r2) in [(0usize, 0usize), (3, 0), (31, 4), (32, 0), (33, 0), (28, 5), (28, 9), (64, 0), (60, 8), (0, 40)] {
+                for (l2, r2) in [(0usize, 0usize), (3, 0), (31, 4), (32, 0), (33, 0), (28, 5), (28, 9), (64, 0), (60, 8), (0, 40), (29, 0), (30, 0), (61, 0), (62, 0), (26, 4)] {
                     for tail in ["", ",x", ":", "@"] {
                         if !(bs == "3" || bs == "3221225472") && !(tail.is_empty() && r1 <= 4) {
                             continue;
@@ -287,7 +287,7 @@ fn section_parser(out: &mut Out) {
             let exp = rt::parse(t, rule);
             let line = match &r {
                 Ok(h) => format!("P {} {} {} Ok {:?} {}", $tag, $name, hexs(t), h, idx),
-                Err(e) => format!("P {} {} {} Err {:?} {:?} {} {}", $tag, $name, hexs(t), e.origin(), e.kind(), e.offset(), idx),
+                Err(e) => format!("P {} {} {} Err {:?} {:?} {} {} [{}] [{:>60.40}]", $tag, $name, hexs(t), e.origin(), e.kind(), e.offset(), idx, e, e),
             };
             if r.is_ok() != exp.is_ok() || r.is_ok() != r2.is_ok() {
                 out.bad(format!("parse {} {}: accepted={} reference accepts={}", $name, String::from_utf8_lossy(t), r.is_ok(), exp.is_ok()));
@@ -378,10 +378,13 @@ fn section_conversions(out: &mut Out) {
                 out.bad(format!("short conversion of {}: {}", exp_raw, line));
             }
             out.line(line);
+            out.line(format!("G [{:>90}] [{:.7}] [{:^11.2}] [{:#<5}] [{:#?}]", short, sn, sd, wide, sd));
         } else {
             let narrowed: Result<RawFuzzyHash, _> = RawFuzzyHash::try_from(long);
             out.line(format!("N {} {:?}", long, narrowed.map(|h| format!("{}", h))));
         }
+        // formatting with width / precision / fill / alternate flags (every build must render the same)
+        out.line(format!("F [{:>150}] [{:.5}] [{:^9.3}] [{:*<12}] [{:140}] [{:.0}] [{:#?}] [{:8.4?}]", long, ln, dual, in_place, dual, back, ln, long.log_block_size()));
         // ordering / equality / hashing of the produced objects is part of the results
         let other = LongRawFuzzyHash::new_from_internals_near_raw(log, &b[..b.len().min(64)], &a[..a.len().min(64)]);
         out.line(format!("O {:?} {} {:?}", long.cmp(&other), long == other, dual.cmp(&LongDualFuzzyHash::from_raw_form(&other))));
